@@ -129,16 +129,26 @@ fn answer_to(role: Role, peer_p1: &[u8], seed: u64) -> Result<(Vec<u8>, Vec<u8>)
 
 /// As `answer_to`, with `extra` further peer bytes (the start of its packet 2) in the same call.
 fn answer_to_with_extra(role: Role, peer_p1: &[u8], seed: u64, extra: usize) -> Result<(Vec<u8>, Vec<u8>), String> {
+    answer_to_with_extra_kind(role, peer_p1, seed, extra, 0)
+}
+
+/// kind 0: `extra` filler bytes; kind 1: the peer's packet 2 is an exact copy of OUR packet 1 (what an
+/// original-handshake peer sends), complete in the same call, followed by `extra` more bytes.
+fn answer_to_with_extra_kind(role: Role, peer_p1: &[u8], seed: u64, extra: usize, kind: u8) -> Result<(Vec<u8>, Vec<u8>), String> {
     set_fill(Some(FillSpec { seed, forced_p1: vec![] }));
     let r = guarded(|| {
         let mut h = Handshake::new(peer_type(role));
         let mut out = Vec::new();
-        if role == Role::Client {
+        if role == Role::Client || kind == 1 {
             out.extend(h.generate_outbound_p0_and_p1().map_err(|e| format!("{:?}", e))?);
         }
         let mut input = vec![3u8];
         input.extend_from_slice(peer_p1);
+        if kind == 1 {
+            input.extend_from_slice(&out[1..1537]);
+        }
         input.extend(std::iter::repeat(0x77u8).take(extra));
+        let extra = if kind == 1 { extra + 1536 } else { extra };
         match h.process_bytes(&input).map_err(|e| format!("{:?}", e))? {
             HandshakeProcessResult::InProgress { response_bytes } => out.extend(response_bytes),
             HandshakeProcessResult::Completed { response_bytes, .. } => {
@@ -381,6 +391,28 @@ pub fn run(run: &Run) {
                         };
                         if !ok {
                             run.violation(&format!("C11/packet2-wrong-with-further-bytes/{:?}/{}", role, if digestless { "echo" } else { "signature" }), &format!("with {} further peer bytes in the same call packet 2 is not {}", extra, if digestless { "an exact echo of the digest-less packet 1" } else { "validly signed" }), replay);
+                        } else {
+                            extra_ok.fetch_add(1, Ordering::Relaxed);
+                        }
+                    }
+                }
+            }
+        }
+    }
+    // the peer's packet 2 (an exact copy of our packet 1, as an original-handshake peer sends it) already in the call
+    for role in [Role::Client, Role::Server] {
+        for extra in [0usize, 9] {
+            for (scheme, sum) in [(0u8, 300usize), (1, 0), (0, 727)] {
+                evals.fetch_add(1, Ordering::Relaxed);
+                let p1 = build_peer_p1(other(role), scheme, sum, 0, 55);
+                let replay = json!({"role": format!("{:?}", role), "peer_packet2": "exact copy of the library's packet 1, in the same call as the peer's packet 1", "further_bytes": extra, "peer_packet1": hex(&p1)});
+                match answer_to_with_extra_kind(role, &p1, 11, extra, 1) {
+                    Err(e) => run.violation(&format!("C11/packet2-not-produced/{:?}/with-peer-packet2-buffered", role), &e, replay),
+                    Ok((_o, p2)) => {
+                        let off = digest_offset(&p1, scheme);
+                        let k = hmac_sha256(&full_key(role), &p1[off..off + 32]);
+                        if hmac_sha256(&k, &p2[..1504])[..] != p2[1504..] {
+                            run.violation(&format!("C11/packet2-wrong-with-further-bytes/{:?}/signature-with-peer-packet2-buffered", role), "the answer to a digest-bearing packet 1 is not validly signed when the peer's packet 2 (a copy of our packet 1) arrives in the same call", replay);
                         } else {
                             extra_ok.fetch_add(1, Ordering::Relaxed);
                         }
